@@ -357,6 +357,24 @@ def b_zip_(c):
 
 @builtin("map", "filter")
 def b_zip(c):
+    """map(f, xs) / filter(f, xs): evaluated like the comprehension [f(x) for x in xs] /
+    [x for x in xs if f(x)] (eagerly: the analysis does not model the laziness of the iterator)"""
+    import ast as _ast
+
+    e = c.e
+    if len(e.args) == 2 and not e.keywords and not any(isinstance(a, _ast.Starred) for a in e.args):
+        var = _ast.Name(id="$m", ctx=_ast.Load())
+        call = _ast.Call(func=e.args[0], args=[var], keywords=[])
+        comp = _ast.comprehension(target=_ast.Name(id="$m", ctx=_ast.Store()), iter=e.args[1], ifs=[] if c.callee.endswith("map") else [call], is_async=0)
+        lc = _ast.ListComp(elt=call if c.callee.endswith("map") else var, generators=[comp])
+        for x in _ast.walk(lc):
+            if not hasattr(x, "lineno"):
+                _ast.copy_location(x, e)
+        _ast.fix_missing_locations(lc)
+        for s2, k2, p2 in c.w.expr(lc, c.s):
+            s2.env.pop("$m", None)
+            c.outs.append((s2, k2, p2))
+        return
     c.ret(Fresh(c.callee[8:]), pure=False)
 
 
@@ -654,7 +672,15 @@ def ext(*names):
 
 def hex_validated(s, x):
     """x is known to be an even-length string of ASCII hex digits without whitespace"""
-    return s.holds(("ok", CallT("ext:bytes.fromhex", [x]))) and s.holds(("truthy", CallT("method:isalnum", [x])))
+    if s.holds(("ok", CallT("ext:bytes.fromhex", [x]))) and s.holds(("truthy", CallT("method:isalnum", [x]))):
+        return True
+    # established by other string tests (a round trip, a regular expression, a character loop):
+    # decided on the language of the facts about x
+    try:
+        from rules import hexlang
+    except ImportError:
+        return False
+    return hexlang.hex_missing_semantic(hexlang.current(), s, x, None) == []
 
 
 def known_len(s, x):
@@ -969,6 +995,21 @@ def x_reduce(c):
             c.outs.append((s1, "val", acc))
         return
     return unknown_callable(c, "functools.reduce over a non-literal sequence")
+
+
+@ext("collections.Counter")
+def x_counter(c):
+    """Counter(iterable of hashables): a dict of counts"""
+    if c.args:
+        ts = c.types(c.args[0])
+        from .walker import CONTAINERS as CONTAINERS_T
+
+        if ts is None or not ts <= CONTAINERS_T:
+            c.rz("TypeError", "Counter() of a value that may not be iterable", [("nottype", c.args[0], CONTAINERS_T)])
+        et = elements_type(c.s, c.args[0])
+        if et is None or not et <= HASHABLE:
+            c.rz("TypeError", "Counter() of elements that may not be hashable", [])
+    c.ret(None, ("type", c.term, frozenset(["dict"])))
 
 
 @ext("functools.*", "itertools.*", "operator.*", "collections.*", "typing.*")
